@@ -36,6 +36,12 @@ CHECKS = {
  "C03": ("model_checking", "Bounded-exhaustive enumeration of grammar families (G1: 6400 structured CFGs with repeats/optionals/fields/aliases/hidden/inlined rules/extras; G2: 1728 operator-precedence tables; G3: GLR grammars with declared conflicts and dynamic precedence) crossed with every token string up to a length bound; each accepted grammar is generated and compiled by the current generator and its parser compared with an independent derivation enumerator (membership + expected visible tree) and a Pratt parser.",
          "The reference deriver/Pratt parser are the specification. Grammars the generator rejects are skipped and counted. G1 grammars that are ambiguous yet accepted are counted, and only 'tree is one of the derivations' is asserted for them.",
          "bounded-exhaustive enumeration of (grammar, string) with reference derivation enumerator and Pratt parser", "DESIGN.md §2 C03"),
+ "C15": ("model_checking", "Equivalence of the MergeStates and unoptimised parsers, enumerated exhaustively over every accepted grammar of the C03 families (incl. LR(1)-but-not-LALR(1) grammars) and the zoo, crossed with every string of the respective box: same acceptance and identical trees on accepted strings. Determinism: every grammar generated in three separate processes through both API paths, parser.c and node-types.json compared byte for byte.",
+         "The process dimension of the determinism part is three draws, not an enumeration (exhaustive=false is reported for it).",
+         "bounded-exhaustive differential enumeration over (grammar, string); repeated generation in separate processes", "DESIGN.md §2 C15"),
+ "C16": ("model_checking", "Every zoo grammar and every accepted family grammar is generated through the CLI path so that parser.c and node-types.json come from one run; every error-free tree over the box is validated against node-types.json (types, fields, children, supertypes, required/multiple, extras, root); all symbol and field ids round-trip; for all states x terminals a successor implies membership in the look-ahead iterator, and along every accepted token string the next token is listed in the state after the previous one.",
+         "Anonymous field-less children are not described by node-types.json. Look-ahead-along-string is skipped for GLR grammars (leaf parse states may belong to dropped stack versions). Supertype ids are looked up as named.",
+         "bounded-exhaustive enumeration of (grammar, tree) and (state, symbol) against the generated metadata", "DESIGN.md §2 C16"),
 }
 REASON_WIP = "check not built yet (work in progress; see DESIGN.md build order)"
 def main():
